@@ -114,10 +114,16 @@ def order(case):
     # the resolved regime needs a moderate cell Peclet number: rescale the diffusivity so that U*zm/K is in [1, 30]
     U = float(np.hypot(St["profiles"][0][0], St["profiles"][1][0]))
     zm = float(St["z"][-1])
-    Knew = U * zm / float(10 ** rng.uniform(0, 1.5))
-    fac = Knew / float(St["profiles"][4][0])
-    St["profiles"] = tuple(p if i < 2 else p * fac for i, p in enumerate(St["profiles"]))
-    St["pdesc"] = dict(St["pdesc"], K=Knew)
+    calm = case["idx"] % 9 == 4
+    if calm:
+        # no wind at all (pure diffusion): the wind arrays are exactly zero at every node, the diffusivity is kept
+        St["profiles"] = tuple(p * 0.0 if i < 2 else p for i, p in enumerate(St["profiles"]))
+        St["pdesc"] = dict(St["pdesc"], U=0.0)
+    else:
+        Knew = U * zm / float(10 ** rng.uniform(0, 1.5))
+        fac = Knew / float(St["profiles"][4][0])
+        St["profiles"] = tuple(p if i < 2 else p * fac for i, p in enumerate(St["profiles"]))
+        St["pdesc"] = dict(St["pdesc"], K=Knew)
     gridk = str(rng.choice(["uniform", "geometric", "expmap_weak"]))  # expmap_weak: almost uniform, each layer 1e-6 thicker than the last
     n0 = int(rng.integers(3, 13))
     z0c = float(St["z"][0]) if gridk == "uniform" else float(max(St["z"][0], 0.15 * zm))
@@ -191,7 +197,7 @@ def order(case):
                      "resolved": res0, "setup": desc})
     if deep:
         desc = dict(desc, column_growth=Gcol)
-    b = {f"b:grid:{gridk}": 1, "b:deep_column" if deep else "b:shallow_column": 1, f"b:halo:{St['halo_class']}": 1, f"b:modes:{St['mode_class']}": 1, "b:footprint" if fp else "b:dispersion": 1,
+    b = {f"b:grid:{gridk}": 1, "b:deep_column" if deep else "b:shallow_column": 1, "b:calm" if calm else "b:windy": 1, f"b:halo:{St['halo_class']}": 1, f"b:modes:{St['mode_class']}": 1, "b:footprint" if fp else "b:dispersion": 1,
          "b:qualifies" if qualifies else "b:below_rounding_floor": 1}
     return {"evals": 3, "nontrivial": bool(qualifies), "sig": f"b|{case['idx']}", "buckets": b, "resid": resid,
             "counters": {"solver_calls": calls, "refinement_triples": 1}, "violations": viol,
